@@ -45,7 +45,7 @@ def check(pid, tier, replay=None):
         print(("VIOLATION property=%s replay=%s" % (pid, replay)) if rej else "replay: contract accepts")
         return 1 if rej else 0
     if pid == "C02":
-        wl, masks = (3, 5) if quick else (12, 10)
+        wl, masks = (3, 5) if quick else (6, 8)
     elif pid == "C03":
         wl, masks = (5, 1) if quick else (15, 1)
     else:
